@@ -15,7 +15,7 @@ ID = "C01"
 TAG = pc.TAG
 EXTRACT = pc.EXTRACT
 DRIVER = pc.DRIVER
-COQ_FILES = ["FA/Proofs/PipelineFacts.v", "FA/Proofs/PipelineSem.v", "FA/Properties/C01.v"]
+COQ_FILES = ["FA/Proofs/PipelineFacts.v", "FA/Proofs/PipelineSem.v", "FA/Proofs/PipelineCapture.v", "FA/Properties/C01.v"]
 
 LEVEL = ("Coq theorems over the composed model Model/Pipeline.v (acquire -> sugar -> follow -> Op(parent, lambda) with "
          "callback metadata -> terminal -> remove_empty -> ext, agg, simplify; node names and argument orders read from "
@@ -66,6 +66,11 @@ CORPUS = [
     # F19: attribute names of Python's own ast nodes
     dict(typed=False, body=["s1 = ds.Select(lambda e: (e.jets.First().trk, e.jets.First().a))",
                             "s2 = s1.Select(lambda p: p[0].Count() + p[1])"], ret="[s2]"),
+    # F20: an inner lambda parameter re-using the outer name must get the inner item type (other defaults!)
+    dict(typed=True, body=["s1 = ds.SelectMany('lambda e: e.Jets()')",
+                           "s2 = s1.Select('lambda j: j.trks().Select(lambda j: j.pt())')",
+                           "s3 = s1.Select(L('lambda j: Where(j.trks(kind=-9), lambda j: j.ok()).Select(lambda j: j.pt(k=4))'))"],
+         ret="[s2, s3]"),
     # branching from a shared parent, Count / len / Sum, function-form strings
     dict(typed=False, body=["s1 = ds.Where('lambda e: Count(e.jets) > 0')",
                             "s2 = s1.Select('lambda e: Sum(Select(e.jets, lambda j: j.a)) + len(e.trk)')",
